@@ -113,6 +113,8 @@ class Method(Variable):  # i.e. TypeBound procedure
     def resolve_link(self, obj_tree):
         if self.link_name is None:
             return
+        # The target may have been renamed or deleted since the last resolution
+        self.link_obj = None
         if self.parent is not None:
             if self.parent.get_type() == CLASS_TYPE_ID:
                 link_obj = find_in_scope(self.parent.parent, self.link_name, obj_tree)
